@@ -101,13 +101,18 @@ var endsWithPercentEncodingPrefixPattern = regexp.MustCompile(
 // or control characters.
 var containsWhitespaceOrControlPattern = regexp.MustCompile(`[[:space:]]|[[:cntrl:]]`)
 
+// containsUnterminatedSingleDigitCharRefPattern matches single-digit decimal character
+// references without a terminating semicolon, e.g. "&#9" in "&#9x". They all stand for control
+// characters; HTML parsers decode them, html.UnescapeString does not.
+var containsUnterminatedSingleDigitCharRefPattern = regexp.MustCompile(`&#[0-9](?:[^0-9;]|$)`)
+
 // decodeURLPrefix returns the given prefix after it has been HTML-unescaped.
 // It returns an error if the prefix:
 //   - ends in an incomplete HTML character reference before HTML-unescaping,
 //   - ends in an incomplete percent-encoding character triplet after HTML-unescaping, or
 //   - contains whitespace before or after HTML-unescaping.
 func decodeURLPrefix(prefix string) (string, error) {
-	if containsWhitespaceOrControlPattern.MatchString(prefix) {
+	if containsWhitespaceOrControlPattern.MatchString(prefix) || containsUnterminatedSingleDigitCharRefPattern.MatchString(prefix) {
 		return "", fmt.Errorf("URL prefix %q contains whitespace or control characters", prefix)
 	}
 	if err := validateDoesNotEndsWithCharRefPrefix(prefix); err != nil {
